@@ -55,6 +55,8 @@ class Lengths:
                 if okf and isinstance(fmt, str) and fmt[:1] in "<>!=" and all(ch in sizes for ch in fmt[1:]):
                     return IV.const(sum(sizes[ch] for ch in fmt[1:]))
                 return TOP
+            if fn in ("bytes", "bytearray") and len(e.args) == 1 and isinstance(e.args[0], (ast.List, ast.Tuple)) and not any(isinstance(x, ast.Starred) for x in e.args[0].elts):
+                return IV.const(len(e.args[0].elts))  # bytes([a, b]): one byte per element
             if fn in ("bytes", "bytearray", "memoryview") and len(e.args) == 1:
                 return self.exprlen(f, e.args[0], at, depth + 1)
             if fn in ("bytes", "bytearray") and not e.args:
@@ -66,6 +68,8 @@ class Lengths:
                     for el in a.elts:
                         total = _add(total, self.exprlen(f, el, at, depth + 1))
                     return total
+                if isinstance(a, ast.Name) and a.id not in f.params:
+                    return self.locallist_sum(f, a.id, depth)
                 if isinstance(a, ast.Name):
                     return self.listlen_sum(f, a.id)
                 return TOP
@@ -112,6 +116,44 @@ class Lengths:
             return TOP
         del res
         return _add(base, extra)
+
+    def locallist_sum(self, f: Func, name: str, depth: int) -> IV:
+        """len(b''.join(<local list>)): the list literal it starts from plus everything appended to it (flow-insensitive;
+        appends inside loops count once per trip, conditional ones from zero)."""
+        base: t.Optional[IV] = None
+        extra = IV.const(0)
+
+        def total(elts: t.List[ast.expr], at: ast.AST) -> IV:
+            out = IV.const(0)
+            for el in elts:
+                out = _add(out, TOP if isinstance(el, ast.Starred) else self.exprlen(f, el, at, depth + 1))
+            return out
+
+        for n in body_nodes(f.node):
+            add: t.Optional[IV] = None
+            if isinstance(n, (ast.Assign, ast.AnnAssign)) and n.value is not None and [unparse(x) for x in (n.targets if isinstance(n, ast.Assign) else [n.target])] == [name]:
+                iv = total(n.value.elts, n) if isinstance(n.value, (ast.List, ast.Tuple)) else TOP
+                base = iv if base is None else base.join(iv)
+                continue
+            if isinstance(n, ast.AugAssign) and unparse(n.target) == name:
+                add = total(n.value.elts, n) if isinstance(n.op, ast.Add) and isinstance(n.value, (ast.List, ast.Tuple)) else TOP
+            elif isinstance(n, ast.Call) and isinstance(n.func, ast.Attribute) and unparse(n.func.value) == name:
+                if n.func.attr == "append" and len(n.args) == 1:
+                    add = self.exprlen(f, n.args[0], n, depth + 1)
+                elif n.func.attr == "extend" and len(n.args) == 1 and isinstance(n.args[0], (ast.List, ast.Tuple)):
+                    add = total(n.args[0].elts, n)
+                elif n.func.attr in ("copy", "index", "count"):
+                    continue
+                else:
+                    add = TOP
+            elif isinstance(n, (ast.Subscript, ast.Starred)) and isinstance(getattr(n, "ctx", None), (ast.Store, ast.Del)) and unparse(n.value) == name:
+                add = TOP
+            if add is not None:
+                add = _mul(add, self.trip_count(f, n))
+                if self.conditional(f, n):
+                    add = IV(0, add.hi)
+                extra = _add(extra, add)
+        return TOP if base is None else _add(base, extra)
 
     def trip_count(self, f: Func, node: ast.AST) -> IV:
         res = self.world.analyse(f)
